@@ -156,6 +156,25 @@ func loadKnownFindings() (known []knownFinding, fixed []string) {
 type boundedSpec struct{ pkg, file, test, bound string }
 
 var boundedNotes []string
+var structuralNotes []string
+var structuralChecked int
+var structuralFns []string
+
+// structural side conditions: lines `structural <Cxx> nondet-free <root-regex>...` in specs/properties.conf
+func structuralChecks(id string) [][]string {
+	data, err := os.ReadFile(filepath.Join(verifDir, "specs", "properties.conf"))
+	if err != nil {
+		return nil
+	}
+	var out [][]string
+	for _, ln := range strings.Split(string(data), "\n") {
+		f := strings.Fields(ln)
+		if len(f) >= 4 && f[0] == "structural" && f[1] == id && f[2] == "nondet-free" {
+			out = append(out, f[3:])
+		}
+	}
+	return out
+}
 
 func boundedChecks(id string) []boundedSpec {
 	data, err := os.ReadFile(filepath.Join(verifDir, "specs", "properties.conf"))
@@ -457,6 +476,33 @@ func cmdCheck(args []string) int {
 			}
 		}
 	}
+	// structural obligations (syntactic side conditions, counted separately)
+	structuralNotes, structuralFns, structuralChecked = nil, nil, 0
+	if *only == "" {
+		for _, roots := range structuralChecks(id) {
+			exempt := map[string]bool{}
+			checked, findings, notes := c.structuralNondetFree(roots, exempt)
+			structuralNotes = append(structuralNotes, fmt.Sprintf("structural nondet-free: %d functions reachable from the roots %v checked, %d findings", len(checked), roots, len(findings)))
+			structuralNotes = append(structuralNotes, notes...)
+			structuralChecked += len(checked)
+			c.assumptionsUsed["A-DETFRAG (structural): Go code without map ranges, select, goroutines, clock/random/environment reads and pointer-to-integer conversions is a function of its inputs; the KV store iterates in key order; amino/protobuf encoding is a function of the value; code outside this repository (cosmos-sdk, tendermint, bank keeper) is not scanned"] = true
+			c.assumptionsUsed["A-SORT (structural): sort.SliceStable/sort.Slice with a pure comparison return a permutation of the input ordered by the comparison; a list of records with pairwise distinct keys ordered by key is unique"] = true
+			c.assumptionsUsed["A-CALLGRAPH (structural): calls of function values other than closure literals are not followed; interface calls are resolved to the implementing types of the loaded packages only"] = true
+			structuralFns = append(structuralFns, checked...)
+			fmt.Println(structuralNotes[len(structuralNotes)-1-len(notes)])
+			if len(checked) == 0 {
+				findings = append(findings, structFinding{"#roots", "no function matches the configured roots (vacuous structural check)"})
+			}
+			for i, f := range findings {
+				os.MkdirAll(replayDir, 0o755)
+				path := filepath.Join(replayDir, fmt.Sprintf("structural-%d.json", i+1))
+				js, _ := json.MarshalIndent(map[string]interface{}{"property": id, "obligation": f.fn + "#nondet-free", "kind": "structural obligation: the function left the deterministic fragment", "finding": f.what}, "", " ")
+				os.WriteFile(path, js, 0o644)
+				violations = append(violations, fmt.Sprintf("VIOLATION property=%s replay=%s obligation=%s#nondet-free %s no-failing-input-found", id, path, f.fn, strings.ReplaceAll(f.what, " ", "_")))
+				exit = 1
+			}
+		}
+	}
 	sort.Strings(knownHits)
 	seenK := map[string]bool{}
 	for _, k := range knownHits {
@@ -613,6 +659,7 @@ func writeEvidence(c *Ctx, id, tier string, seed int, reports []*fnReport, all, 
 		"evaluations": len(all), "distinct_nontrivial": nDis,
 		"rule": "one SMT query per obligation (postcondition conjunct per return, callee precondition, loop invariant init/preservation, frame); non-trivial = discharged as unsat by a solver; names are unique",
 		"bounded": append([]string{}, boundedNotes...),
+		"structural": append([]string{}, structuralNotes...), "structural_functions_checked": structuralChecked, "structural_functions": append([]string{}, structuralFns...),
 	}
 	ev := map[string]interface{}{"property_id": id, "tier": tier, "seed": seed, "level": "proof", "coverage": cov,
 		"assumptions": assumptions, "wall_s": wall, "violations": len(violations)}
